@@ -133,22 +133,48 @@ pub fn pick_parent(rng: &mut Rng, case: &Case) -> usize {
     }
 }
 
-fn addr_arg(world: &World, rng: &mut Rng) -> (String, String) {
-    // (text sent to the canister, protocol token)
+/// A request address: (string sent to the canister, protocol token, canonical text if accepted).
+/// The string is usually an address of the pool; sometimes its upper-case spelling (valid for
+/// bech32), a mixed-case / corrupted / truncated / padded variant, an address of another network, or
+/// junk. The token carries the classification the REAL parser gives (`Address::from_str_checked`)
+/// and the string itself (hex), which the model parses on its own.
+pub fn addr_arg(world: &World, rng: &mut Rng) -> (String, String, Option<String>) {
     let addrs = world.addresses();
-    let r = rng.below(40);
-    if r == 0 {
-        ("not-an-address".to_string(), "bad".to_string())
-    } else if r == 1 {
-        // a valid address of another network
-        let other = match world.network {
-            Network::Mainnet => "bcrt1qg4cvn305es3k8j69x06t9hf4v5yx4mxdaeazl8",
-            _ => "bc1qar0srrr7xfkvy5l643lydnw9re59gtzzwf5mdq",
-        };
-        (other.to_string(), "wrongnet".to_string())
-    } else {
-        let a = rng.pick(&addrs).clone();
-        (a.clone(), format!("a:{}", a))
+    let others: &[&str] = match world.network {
+        Network::Mainnet => &["bcrt1qg4cvn305es3k8j69x06t9hf4v5yx4mxdaeazl8", "tb1qw508d6qejxtdg4y5r3zarvary0c5xw7kxpjzsx", "mipcBbFg9gMiCh81Kj8tqqdgoZub1ZJRfn", "2MzQwSSnBHWHqSAqtTVQ6v47XtaisrJa1Vc"],
+        Network::Testnet => &["bc1qar0srrr7xfkvy5l643lydnw9re59gtzzwf5mdq", "bcrt1qg4cvn305es3k8j69x06t9hf4v5yx4mxdaeazl8", "1BvBMSEYstWetqTFn5Au4m4GFg7xJaNVN2", "3J98t1WpEZ73CNmQviecrnyiWrnqRhWNLy", "mipcBbFg9gMiCh81Kj8tqqdgoZub1ZJRfn"],
+        Network::Regtest => &["bc1qar0srrr7xfkvy5l643lydnw9re59gtzzwf5mdq", "tb1qw508d6qejxtdg4y5r3zarvary0c5xw7kxpjzsx", "1BvBMSEYstWetqTFn5Au4m4GFg7xJaNVN2", "bc1p5cyxnuxmeuwuvkwfem96lqzszd02n6xdcjrs20cac6yqjjwudpxqkedrcr", "2MzQwSSnBHWHqSAqtTVQ6v47XtaisrJa1Vc"],
+    };
+    let base = rng.pick(&addrs).clone();
+    let s: String = match rng.below(24) {
+        0 => "not-an-address".to_string(),
+        1 => rng.pick(others).to_string(),
+        2 => base.to_uppercase(),
+        3 => {
+            // one letter in the other case
+            let mut cs: Vec<char> = base.chars().collect();
+            let i = rng.below(cs.len() as u64) as usize;
+            cs[i] = if cs[i].is_ascii_lowercase() { cs[i].to_ascii_uppercase() } else { cs[i].to_ascii_lowercase() };
+            cs.into_iter().collect()
+        }
+        4 => {
+            // one character replaced
+            let mut cs: Vec<char> = base.chars().collect();
+            let i = rng.below(cs.len() as u64) as usize;
+            cs[i] = *rng.pick(&['q', 'z', '2', 'X', '1', 'b']);
+            cs.into_iter().collect()
+        }
+        5 => format!("{} ", base),
+        6 => base[..base.len() - 1].to_string(),
+        7 => String::new(),
+        8 => rng.pick(others).to_uppercase(),
+        _ => base.clone(),
+    };
+    let hexs = if s.is_empty() { "-".to_string() } else { hex::encode(s.as_bytes()) };
+    match can::types::Address::from_str_checked(&s, world.network) {
+        Ok(a) => { let canon = a.to_string(); (s, format!("a:{}~{}", canon, hexs), Some(canon)) }
+        Err(can::types::AddressParseError::MalformedAddress) => (s, format!("bad:{}", hexs), None),
+        Err(_) => (s, format!("wrongnet:{}", hexs), None),
     }
 }
 
@@ -158,12 +184,14 @@ pub fn queries(out: &mut Out, rng: &mut Rng, case: &Case, heavy: bool) {
     let addrs = case.world.addresses();
     let n_addr_queries = if heavy { addrs.len() } else { 2 };
     for k in 0..n_addr_queries {
-        let (text, tok) = if heavy { (addrs[k].clone(), format!("a:{}", addrs[k])) } else { addr_arg(&case.world, rng) };
+        let (req, tok, canon) = if heavy { (addrs[k].clone(), format!("a:{}", addrs[k]), Some(addrs[k].clone())) } else { addr_arg(&case.world, rng) };
+        // `req` goes to the canister; the specification lines are about the address it denotes
+        let text = canon.unwrap_or_else(|| req.clone());
         // complete answer, no filter, small page size through the hook and the real endpoint
         let lim = *rng.pick(&[1usize, 2, 3, 5, 1000]);
-        let (obs, parsed) = c::get_utxos_all_parsed(&text, net, &c::Filter::None, if lim == 1000 { None } else { Some(lim) });
+        let (obs, parsed) = c::get_utxos_all_parsed(&req, net, &c::Filter::None, if lim == 1000 { None } else { Some(lim) });
         out.emit(&format!("c q utxosall {} none {}", tok, lim), &obs);
-        let bal = c::get_balance(&text, net, None);
+        let bal = c::get_balance(&req, net, None);
         out.emit(&format!("c q balance {} x", tok), &bal);
         if let Some(p) = &parsed {
             // C01: the answer against the ledger at the tip it names
@@ -192,9 +220,9 @@ pub fn queries(out: &mut Out, rng: &mut Rng, case: &Case, heavy: bool) {
         }
         let maxc = can::with_state(|s| can::unstable_blocks::get_main_chain_length(&s.unstable_blocks)) as u32;
         let cc = rng.range(0, maxc as u64 + 2) as u32;
-        let (obs, parsed) = c::get_utxos_all_parsed(&text, net, &c::Filter::MinConf(cc), if lim == 1000 { None } else { Some(lim) });
+        let (obs, parsed) = c::get_utxos_all_parsed(&req, net, &c::Filter::MinConf(cc), if lim == 1000 { None } else { Some(lim) });
         out.emit(&format!("c q utxosall {} c={} {}", tok, cc, lim), &obs);
-        let balc = c::get_balance(&text, net, Some(cc));
+        let balc = c::get_balance(&req, net, Some(cc));
         out.emit(&format!("c q balance {} {}", tok, cc), &balc);
         if tok.starts_with("a:") && cc >= 1 && obs != "trap" {
             // C04: the named block and the set, against the definition
